@@ -390,9 +390,90 @@ class Interp:
                 if item.optional_vars is not None:
                     raise AnalysisError(f"{self.name}:{st.lineno}: `with ... as` is outside the subset")
             self.exec_block(st.body, env)
+        elif hasattr(ast, "Match") and isinstance(st, ast.Match):
+            subject = self.eval(st.subject, env)
+            for case in st.cases:
+                binds = {}
+                if self._match(case.pattern, subject, env, binds):
+                    for k_, v_ in binds.items():
+                        self.assign(ast.Name(id=k_, ctx=ast.Store()), v_, env)
+                    if case.guard is not None and not self.truth(self.eval(case.guard, env)):
+                        continue
+                    self.exec_block(case.body, env)
+                    return
         else:
             raise AnalysisError(f"{self.name}:{st.lineno}: statement {type(st).__name__} is outside "
                                 "the micro-evaluator's subset")
+
+    def _match(self, pat, v, env, binds) -> bool:
+        """structural pattern matching for the pattern kinds plain dispatch code uses"""
+        if isinstance(pat, ast.MatchValue):
+            c = self.eval(pat.value, env)
+            try:
+                return bool(v == c)
+            except Exception:
+                return False
+        if isinstance(pat, ast.MatchSingleton):
+            return v is pat.value
+        if isinstance(pat, ast.MatchOr):
+            for sub in pat.patterns:
+                b2 = {}
+                if self._match(sub, v, env, b2):
+                    binds.update(b2)
+                    return True
+            return False
+        if isinstance(pat, ast.MatchAs):
+            if pat.pattern is not None and not self._match(pat.pattern, v, env, binds):
+                return False
+            if pat.name is not None:
+                binds[pat.name] = v
+            return True
+        if isinstance(pat, ast.MatchSequence):
+            if not isinstance(v, (list, tuple)):
+                return False
+            stars = [i for i, p_ in enumerate(pat.patterns) if isinstance(p_, ast.MatchStar)]
+            if not stars:
+                if len(v) != len(pat.patterns):
+                    return False
+                return all(self._match(p_, x, env, binds) for p_, x in zip(pat.patterns, v))
+            i = stars[0]
+            before, after = pat.patterns[:i], pat.patterns[i + 1:]
+            if len(v) < len(before) + len(after):
+                return False
+            ok = all(self._match(p_, x, env, binds) for p_, x in zip(before, v[:len(before)]))
+            tail = v[len(v) - len(after):] if after else []
+            ok = ok and all(self._match(p_, x, env, binds) for p_, x in zip(after, tail))
+            if ok and pat.patterns[i].name:
+                binds[pat.patterns[i].name] = list(v[len(before):len(v) - len(after)])
+            return ok
+        if isinstance(pat, ast.MatchMapping):
+            if not isinstance(v, dict):
+                return False
+            for k_, p_ in zip(pat.keys, pat.patterns):
+                kk = self.eval(k_, env)
+                if kk not in v or not self._match(p_, v[kk], env, binds):
+                    return False
+            if pat.rest:
+                keys = {self.eval(k_, env) for k_ in pat.keys}
+                binds[pat.rest] = {a: b for a, b in v.items() if a not in keys}
+            return True
+        if isinstance(pat, ast.MatchClass):
+            cls = self.eval(pat.cls, env)
+            if cls in (str, int, float, bool, list, tuple, dict):
+                if not isinstance(v, cls) or (cls is int and isinstance(v, bool)):
+                    return False
+                if pat.patterns:
+                    return len(pat.patterns) == 1 and self._match(pat.patterns[0], v, env, binds)
+                return True
+            if isinstance(cls, ClassRef) and isinstance(v, Record) and v.cls_name == cls.name:
+                if pat.patterns:
+                    raise AnalysisError(f"{self.name}: positional class patterns are outside the subset")
+                for a_, p_ in zip(pat.kwd_attrs, pat.kwd_patterns):
+                    if a_ not in v.fields or not self._match(p_, v.fields[a_], env, binds):
+                        return False
+                return True
+            return False
+        raise AnalysisError(f"{self.name}: pattern {type(pat).__name__} is outside the micro-evaluator's subset")
 
     def assign(self, target, v, env):
         if isinstance(target, ast.Name):
